@@ -416,13 +416,13 @@ def c12_scenarios(tier, seed):
     tree = ["bin/tool", "bin/keep.txt", "build/a.o", "build/b.o", "build/readme.md", "dist/pkg/x.tar", "dist/pkg/sub/y.tar", "src/main.go", "src/a.o", "out.txt", "notes.md",
             ".hidden/z.o", "decoy/out.txt", "build.log", "out.txt.bak", "dist/pkg.sha", ".x_cache/f.bin", "my_cache/f.bin", "my_cache/sub/g.bin", "cache.db", "zcache"]
     kinds = ["litfile", "litdir", "named_rel", "named_join", "glob", "glob_none", "missing", "litdir_build", "litfile_buildlog", "glob_top", "litfile_bak", "litfile_sha",
-             "lit_linkdir", "named_linkfile", "lit_dotslash", "lit_trailing", "lit_updown", "named_abs_inside", "litdir_dist", "lit_cachedir",
+             "lit_linkdir", "named_linkfile", "lit_dotslash", "lit_trailing", "lit_updown", "named_abs_inside", "litdir_dist", "lit_cachedir", "lit_abs_outside", "lit_abs_inside",
              "named_empty", "named_dot", "lit_parent", "named_abs_outside", "glob_spok", "lit_spokfile"]
     n = 400 if tier == "quick" else 20000
     for it in range(n):
         present = [p for p in tree if rnd.random() < 0.75]
         nout = rnd.randint(0, 5)
-        chosen = [rnd.choice(kinds[:20] if rnd.random() < 0.8 else kinds) for _ in range(nout)]
+        chosen = [rnd.choice(kinds[:22] if rnd.random() < 0.8 else kinds) for _ in range(nout)]
         cwd_nested = rnd.random() < 0.3
         elsewhere = (not cwd_nested) and rnd.random() < 0.2      # run from an unrelated directory with --spokfile
         has_clean = rnd.random() < 0.15
@@ -446,6 +446,10 @@ def c12_scenarios(tier, seed):
             elif kind == "named_abs_inside":
                 vars_.append(("INSIDE%s" % "ABCDE"[k], '"@HOME@/proj/build.log"')); outs.append("INSIDE%s" % "ABCDE"[k])
                 des.append(["proj", "build.log"]); alt.append(["proj", "build.log"])
+            elif kind == "lit_abs_outside":      # a literal absolute path names that path, wherever the spokfile is
+                outs.append('"@HOME@/other/gen.txt"'); des.append(["other", "gen.txt"]); alt.append(["other", "gen.txt"])
+            elif kind == "lit_abs_inside":
+                outs.append('"@HOME@/proj/notes.md"'); des.append(["proj", "notes.md"]); alt.append(["proj", "notes.md"])
             elif kind == "litdir_dist":          # an output that contains another output
                 outs.append('"dist"'); des.append(["proj", "dist"]); alt.append(["proj", "dist"])
             elif kind == "lit_cachedir":         # the cache directory named as an output: it goes anyway
